@@ -87,6 +87,13 @@ def alt_cfg(cfg):
     return c
 
 
+def refused_alternatives(cfg, file_size):
+    """headers tried by the second `initialize` without permission: (label, configuration)"""
+    big = {'cls': 'Rectilinear', 'dt': cfg['dt'], 'nVar': cfg['nVar'], 'grid': [file_size // 8 + 9], 'cv': 0}
+    other = {'cls': 'Scalar', 'dt': cfg['dt'], 'nVar': cfg['nVar'], 'grid': [], 'cv': 0} if cfg['cls'] != 'Scalar' else {'cls': 'Rectilinear', 'dt': cfg['dt'], 'nVar': cfg['nVar'], 'grid': [2], 'cv': 0}
+    return [('other_nVar', alt_cfg(cfg)), ('same', dict(cfg)), ('other_class', other), ('header_larger_than_file', big)]
+
+
 def _cpu():
     import resource
 
@@ -154,12 +161,15 @@ def run_history(wd, cfg, history, off, keep_as=None):
                 if after != before:
                     return (step, op, 'read_changed_file', None, {}), info
             elif op == 'N':
-                w2 = io.new_writer(alt_cfg(cur_cfg), path)
-                FieldsIO.ALLOW_OVERWRITE = False
-                out, before, after = hist.do(op, w2.initialize)
-                info['outcomes'].append('N:' + (type(out[1]).__name__ if out[0] == 'raised' else 'returned'))
-                if after != before:
-                    return (step, op, 'overwritten_without_permission', None, {'size_before': len(before), 'size_after': len(after or b''), 'outcome': out[0]}), info
+                # every alternative header in turn (none may change the file, so the state is the same for each): another
+                # nVar (same header size), the identical header, the other class, and a header LARGER than the whole file
+                for which, acfg in refused_alternatives(cur_cfg, len(hist.last or b'')):
+                    w2 = io.new_writer(acfg, path)
+                    FieldsIO.ALLOW_OVERWRITE = False
+                    out, before, after = hist.do(op, w2.initialize)
+                    info['outcomes'].append('N:' + which + ':' + (type(out[1]).__name__ if out[0] == 'raised' else 'returned'))
+                    if after != before:
+                        return (step, op, 'overwritten_without_permission', None, {'new_header': which, 'size_before': len(before), 'size_after': len(after or b''), 'outcome': out[0]}), info
             elif op == 'Y':
                 # alternate between the two headers so that an un-replaced file is visible
                 toggles += 1
